@@ -104,6 +104,18 @@ struct LocalKeyId(usize);
 
 struct LocalValue(Option<Box<dyn Any>>);
 
+impl Drop for LocalValue {
+    fn drop(&mut self) {
+        // Thread-locals that are still alive when a failed iteration unwinds
+        // out of `Builder::check` are dropped with the thread table, outside
+        // the execution. Their destructors may use loom handles, which would
+        // panic again and abort the process. Leak them.
+        if std::thread::panicking() {
+            std::mem::forget(self.0.take());
+        }
+    }
+}
+
 impl Thread {
     fn new(id: Id, parent_span: &tracing::Span) -> Thread {
         Thread {
